@@ -146,7 +146,7 @@ def run_property(prop, tier, seed, workdir, evid_path, t0, only):
         for un in units:
             m, U, cfile = build_unit(un, workdir)
             names = m.PROPERTIES.get(prop, [])
-            gs = [g for g in m.GROUPS if g.name in names and (only is None or g.name in only)]
+            gs = [g for g in m.GROUPS if (g.name in names if only is None else g.name in only)]
             run_gs = []
             for g in gs:
                 uw = dict(getattr(m, 'UNWIND', {}))
